@@ -192,6 +192,39 @@ SCRIPT_RECIPES = [
 ]
 
 
+# ---- adversarial values at every place where a script reads a value (added after the seeded change
+# C01-map-key-float-unwrap was missed: a float used as a canon-map key through a scalar accessor panicked) ----
+GRID_VALUES = [1.5, -0.25, 1e300, -1, 4294967296, 9223372036854775808, 18446744073709551615, -9223372036854775808,
+               None, True, "", "\u00e9", [], {}, [1.5], {"a": None}, "x" * 300, 0, "a"]
+GRID_SITES = [
+    ("canon-map-key", '(seq (ap ("a" 1) %m) (seq (ap (7 2) %m) (seq (canon "@A" %m #%cm) (xor (call "@A" ("s" "id") [#%cm.$.[k]]) (call "@A" ("s" "id") [#%cm.$.[k].[0]])))))'),
+    ("scalar-lens-key", '(seq (call "@A" ("s" "obj") [] o) (xor (call "@A" ("s" "id") [o.$.[k]]) (call "@A" ("s" "id") [o.$.l.[k]])))'),
+    ("canon-stream-idx", '(seq (ap 1 $s) (seq (canon "@A" $s #cs) (xor (call "@A" ("s" "id") [#cs.$.[k]]) (null))))'),
+    ("iterator-lens-key", '(seq (call "@A" ("s" "arr2") [] xs) (fold xs it (seq (xor (call "@A" ("s" "id") [it.$.[k]]) (null)) (next it))))'),
+    ("ap-map-key", '(xor (ap (k 1) %m) (seq (canon "@A" %m #%cm) (call "@A" ("s" "id") [#%cm])))'),
+    ("peer", '(xor (call k ("s" "id") [1]) (null))'),
+    ("service", '(xor (call "@A" (k "id") [1]) (null))'),
+    ("function", '(xor (call "@A" ("s" k) [1]) (null))'),
+    ("fold-iterable", '(xor (fold k it (seq (call "@A" ("s" "id") [it]) (next it))) (null))'),
+    ("fail", '(xor (fail k) (call "@A" ("s" "id") [%last_error%]))'),
+    ("match", '(xor (match k 1.5 (null)) (xor (mismatch k k (null)) (null)))'),
+    ("canon-peer", '(seq (ap 1 $s) (xor (canon k $s #cs) (null)))'),
+    ("map-to-scalar", '(seq (ap (k k) %m) (seq (canon "@A" %m sc) (call "@A" ("s" "id") [sc])))'),
+    ("canon-map-fold", '(seq (xor (ap (k 1) %m) (ap ("z" k) %m)) (seq (canon "@A" %m #%cm) (fold #%cm it (seq (call "@A" ("s" "id") [it]) (next it)))))'),
+]
+
+
+def grid_cases(rng, big):
+    out = []
+    for label, body in GRID_SITES:
+        vals = GRID_VALUES if big else rng.sample(GRID_VALUES, 9)
+        for v in vals:
+            out.append({"stream": "crash", "kind": "script", "label": "grid-%s" % label,
+                        "script": '(seq (call "@A" ("s" "v") [] k) %s)' % body, "peers": ["A", "B"],
+                        "services": SV + [["s", "v", {"const": v}]]})
+    return out
+
+
 def gen_cases(rng, tier, escalate=False):
     big = tier == "thorough" or escalate
     n_tamper = 1500 if big else 270
@@ -223,6 +256,7 @@ def gen_cases(rng, tier, escalate=False):
     # ---- script-level recipes and nesting (documented depth: 1000)
     for label, script, services in SCRIPT_RECIPES:
         cases.append({"stream": "crash", "kind": "script", "label": label, "script": script, "peers": ["A", "B"], "services": services})
+    cases.extend(grid_cases(rng, big))
     for d in ([10, 100, 1000] if not big else [10, 100, 300, 1000]):
         for kind in ("seq", "par", "xor"):
             cases.append({"stream": "crash", "kind": "script", "label": "deep-%s-%d" % (kind, d), "script": nest(d, kind), "peers": ["A", "B"], "services": []})
